@@ -571,4 +571,257 @@ theorem v0Bytes_fields (ver n p c : Nat) (idx ext : List Nat)
     simp only [List.length_append, beBytes_length, List.length_cons, List.length_nil, List.append_assoc] at this
     exact this
 
+/-! ## colours are preserved -/
+
+/-- the header of the subset table and where its colour records are -/
+theorem subset_header (b : List Nat) (palettes : List (Nat × Nat)) (packed : List Obj) (root : Obj)
+    (out : List Nat) (hb : ∀ x ∈ b, x < 256) (hN : (retainedOf palettes).length < 65536)
+    (sh : Shape b palettes packed root) (hv : sh.hd.version ≤ 1)
+    (hout : layout packed root = .ok out) :
+    ∃ hd' pre, readHeader out = some hd' ∧ hd'.version = sh.hd.version ∧
+      hd'.numEntries = (retainedOf palettes).length ∧ hd'.numPalettes = sh.hd.numPalettes ∧
+      hd'.numColorRecords = sh.map.length * (retainedOf palettes).length ∧
+      hd'.indices = sh.hd.indices.map (fun f => (sh.map.lookup f).getD 0) ∧
+      hd'.recordsOffset = pre.length ∧ 12 ≤ pre.length ∧ out = pre ++ sh.recBytes := by
+  obtain ⟨B, mid, hout', hBl, hlow, hoff, hmidr⟩ := layout_shape b palettes packed root out sh hout
+  obtain ⟨hd, records, map, recBytes, more, ext, ls, hhd, hoffne, hrec, hgo, hfit, hret, hpal, hne, hpacked,
+    hmore, hbytes, hext1, hext0, hlinks, hls'⟩ := sh
+  simp only [] at hv hlow hoff hmidr hout' ⊢
+  have hmod : (retainedOf palettes).length % 65536 = (retainedOf palettes).length := Nat.mod_eq_of_lt hN
+  rw [hmod] at hbytes hfit
+  obtain ⟨f0, f2, f4, f6, f8, fl⟩ := readHeader_fields b hd hhd
+  have hil : hd.indices.length = hd.numPalettes := rdList16_length b _ _ _ fl
+  obtain ⟨inv, hall, _⟩ := recordsGo_spec records (retainedOf palettes) hN hd.indices [] 0 [] map recBytes
+    (recInv_init _ _) hgo
+  -- the fields of the root object before patching
+  have hX := v0Bytes_fields hd.version (retainedOf palettes).length hd.numPalettes
+    (map.length * (retainedOf palettes).length) (hd.indices.map fun f => (map.lookup f).getD 0) ext
+    (by have := rdN_lt hb f0; omega) hN (by have := rdN_lt hb f4; omega) hfit
+    (by
+      intro x hx
+      obtain ⟨f, _, rfl⟩ := List.mem_map.mp hx
+      exact map_values_lt _ _ _ _ _ inv f)
+  simp only [List.length_map] at hX
+  rw [← hbytes] at hX
+  obtain ⟨x0, x2, x4, x6, xl⟩ := hX
+  have hrl : root.bytes.length = 12 + 2 * hd.indices.length + ext.length := by
+    rw [hbytes, List.length_append, v0Bytes_length]; simp
+  -- reads of the whole table go into the root object
+  have rdB : ∀ w p, p + w ≤ B.length → rdN w out p = rdN w B p := by
+    intro w p hp; rw [hout']; exact rdN_append_left hp
+  have o0 : rd16 out 0 = some hd.version := by
+    unfold rd16; rw [rdB 2 0 (by omega), hlow 2 0 (by omega)]; exact x0
+  have o2 : rd16 out 2 = some (retainedOf palettes).length := by
+    unfold rd16; rw [rdB 2 2 (by omega), hlow 2 2 (by omega)]; exact x2
+  have o4 : rd16 out 4 = some hd.numPalettes := by
+    unfold rd16; rw [rdB 2 4 (by omega), hlow 2 4 (by omega)]; exact x4
+  have o6 : rd16 out 6 = some (map.length * (retainedOf palettes).length) := by
+    unfold rd16; rw [rdB 2 6 (by omega), hlow 2 6 (by omega)]; exact x6
+  have o8 : rd32 out 8 = some (B.length + mid.length) := by
+    unfold rd32; rw [rdB 4 8 (by omega)]; exact hoff
+  have ol : rdList16 out 12 hd.numPalettes = some (hd.indices.map fun f => (map.lookup f).getD 0) := by
+    rw [← hil, ← xl]
+    apply rdList16_congr
+    intro i hi
+    unfold rd16
+    rw [rdB 2 _ (by omega), hmidr 2 _ (by omega) (by omega)]
+  have hpre : 12 ≤ (B ++ mid).length := by rw [List.length_append, hBl, hrl]; omega
+  by_cases hge : hd.version ≥ 1
+  · have hv1 : hd.version = 1 := by omega
+    have he := hext1 hv1
+    have hlen12 : 12 + 2 * hd.numPalettes + 12 ≤ out.length := by
+      rw [hout', List.length_append, hBl, hrl, he, List.length_replicate, hil]; omega
+    refine ⟨{ version := hd.version, numEntries := (retainedOf palettes).length, numPalettes := hd.numPalettes,
+              numColorRecords := map.length * (retainedOf palettes).length,
+              recordsOffset := B.length + mid.length,
+              indices := hd.indices.map fun f => (map.lookup f).getD 0,
+              v1Pos := some (12 + 2 * hd.numPalettes) }, B ++ mid, ?_, rfl, rfl, rfl, rfl, rfl,
+            by simp, hpre, by rw [hout']; simp⟩
+    unfold readHeader
+    rw [o0, o2, o4, o6, o8]
+    simp only [ol]
+    rw [if_pos hge, if_pos hlen12]
+  · refine ⟨{ version := hd.version, numEntries := (retainedOf palettes).length, numPalettes := hd.numPalettes,
+              numColorRecords := map.length * (retainedOf palettes).length,
+              recordsOffset := B.length + mid.length,
+              indices := hd.indices.map fun f => (map.lookup f).getD 0,
+              v1Pos := none }, B ++ mid, ?_, rfl, rfl, rfl, rfl, rfl,
+            by simp, hpre, by rw [hout']; simp⟩
+    unfold readHeader
+    rw [o0, o2, o4, o6, o8]
+    simp only [ol]
+    rw [if_neg hge]
+
+theorem subsetCpal_objects (b : List Nat) (palettes : List (Nat × Nat)) (out : List Nat)
+    (hok : subsetCpal b palettes = .ok out) :
+    ∃ packed root, cpalObjects b palettes = .ok (packed, root) ∧ layout packed root = .ok out := by
+  unfold subsetCpal at hok
+  obtain ⟨⟨packed, root⟩, h1, h2⟩ := bind_ok hok
+  exact ⟨packed, root, h1, h2⟩
+
+/-- entry `j` of the subset (the j-th retained entry `e`) has the colour of entry `e` of the source, in
+every palette -/
+theorem subset_color (b out : List Nat) (palettes : List (Nat × Nat)) (hb : ∀ x ∈ b, x < 256)
+    (hN : (retainedOf palettes).length < 65536)
+    (hok : subsetCpal b palettes = .ok out) (hd : Header) (hhd : readHeader b = some hd) (hv : hd.version ≤ 1)
+    (p j e : Nat) (hp : p < hd.numPalettes) (hj : (retainedOf palettes)[j]? = some e) (he : e < hd.numEntries) :
+    color out p j = color b p e := by
+  obtain ⟨packed, root, hobj, hlay⟩ := subsetCpal_objects b palettes out hok
+  obtain ⟨sh⟩ := cpalObjects_shape b palettes packed root hobj
+  have hsame : sh.hd = hd := by
+    have := sh.hhd; rw [hhd] at this; cases this; rfl
+  obtain ⟨hd', pre, hrd, _, hne', hnp', hnc', hidx', hoff', hpre, hout⟩ :=
+    subset_header b palettes packed root out hb hN sh (by rw [hsame]; exact hv) hlay
+  obtain ⟨hd0, records, map, recBytes, more, ext, ls, hhd0, hoffne, hrec, hgo, hfit, hret, hpal, hne, hpacked,
+    hmore, hbytes, hext1, hext0, hlinks, hls'⟩ := sh
+  simp only [] at hsame hne' hnp' hnc' hidx' hoff' hout
+  subst hsame
+  obtain ⟨f0, f2, f4, f6, f8, fl⟩ := readHeader_fields b hd0 hhd0
+  have hil : hd0.indices.length = hd0.numPalettes := rdList16_length b _ _ _ fl
+  obtain ⟨inv, hall, _⟩ := recordsGo_spec records (retainedOf palettes) hN hd0.indices [] 0 [] map recBytes
+    (recInv_init _ _) hgo
+  have hjlt : j < (retainedOf palettes).length := by
+    by_cases h : j < (retainedOf palettes).length
+    · exact h
+    · rw [List.getElem?_eq_none (by omega)] at hj; cases hj
+  have hje : (retainedOf palettes)[j] = e := by
+    rw [List.getElem?_eq_getElem hjlt] at hj; cases hj; rfl
+  -- the palette's first index and its image
+  have hplt : p < hd0.indices.length := by omega
+  obtain ⟨nf, hnf⟩ := Option.isSome_iff_exists.mp (hall _ (List.getElem_mem hplt))
+  obtain ⟨k, hk, hnfk, hblock⟩ := inv.blocks _ _ hnf
+  have hmod : (retainedOf palettes).length % 65536 = (retainedOf palettes).length := Nat.mod_eq_of_lt hN
+  rw [hmod] at hfit
+  have hkN : k * (retainedOf palettes).length < 65536 := by
+    have : (k + 1) * (retainedOf palettes).length ≤ map.length * (retainedOf palettes).length :=
+      Nat.mul_le_mul_right _ hk
+    rw [Nat.succ_mul] at this
+    omega
+  rw [Nat.mod_eq_of_lt hkN] at hnfk
+  -- the source side
+  have hsrc : color b p e = slice records (4 * (hd0.indices[p] + e)) 4 := by
+    unfold color
+    rw [hhd0]
+    simp only []
+    rw [if_neg (by omega), List.getElem?_eq_getElem hplt]
+    simp only []
+    rw [if_neg hoffne, hrec]
+  -- the subset side
+  have hdst : color out p j = slice recBytes (4 * (nf + j)) 4 := by
+    unfold color
+    rw [hrd]
+    simp only []
+    rw [if_neg (by omega), hidx']
+    rw [List.getElem?_map, List.getElem?_eq_getElem hplt]
+    simp only [Option.map_some]
+    rw [hnf]
+    simp only [Option.getD_some]
+    rw [if_neg (by omega), hoff', hnc']
+    have hlen : recBytes.length = 4 * (map.length * (retainedOf palettes).length) := inv.len
+    have : slice out pre.length (4 * (map.length * (retainedOf palettes).length)) = some recBytes := by
+      rw [hout, ← hlen]
+      have := @slice_append_right pre recBytes 0 recBytes.length
+      simp only [Nat.add_zero] at this
+      rw [this]
+      exact slice_all _
+    rw [this]
+  rw [hsrc, hdst, hnfk, hblock j hjlt, hje]
+
+/-! ## `remap_palette_indices` -/
+
+/-- the pairs `remap_palette_indices` produces for the keys from position `k0` on -/
+def remapFrom (k0 : Nat) (keys : List Nat) : List (Nat × Nat) :=
+  (keys.zipIdx k0).map fun (x, i) => if x = 0xFFFF then (0xFFFF, 0xFFFF) else (x, i % 65536)
+
+theorem remapPaletteIndices_eq (keys : List Nat) : remapPaletteIndices keys = remapFrom 0 keys := rfl
+
+theorem remapFrom_cons (k0 x : Nat) (xs : List Nat) :
+    remapFrom k0 (x :: xs) =
+      (if x = 0xFFFF then (0xFFFF, 0xFFFF) else (x, k0 % 65536)) :: remapFrom (k0 + 1) xs := by
+  simp [remapFrom, List.zipIdx_cons]
+
+theorem remapFrom_keys (k0 : Nat) (keys : List Nat) : (remapFrom k0 keys).map (·.1) = keys := by
+  induction keys generalizing k0 with
+  | nil => simp [remapFrom]
+  | cons x xs ih =>
+    rw [remapFrom_cons, List.map_cons, ih]
+    by_cases hx : x = 0xFFFF
+    · simp [hx]
+    · simp [hx]
+
+theorem retainedOf_remap (keys : List Nat) :
+    retainedOf (remapPaletteIndices keys) = keys.filter (· ≠ 0xFFFF) := by
+  unfold retainedOf
+  rw [remapPaletteIndices_eq, remapFrom_keys]
+
+/-- a strictly ascending list of numbers between `k0` and `m` has at most `m - k0` elements -/
+theorem ascending_length (m : Nat) : ∀ (l : List Nat) (k0 : Nat), l.Pairwise (· < ·) →
+    (∀ x ∈ l, k0 ≤ x ∧ x < m) → l.length ≤ m - k0
+  | [], k0, _, _ => by simp
+  | x :: l, k0, hp, h => by
+    have hx := h x (by simp)
+    have hxy : ∀ z ∈ l, x < z := (List.pairwise_cons.mp hp).1
+    have := ascending_length m l (k0 + 1) (List.pairwise_cons.mp hp).2
+      (fun z hz => ⟨by have := hxy z hz; omega, (h z (by simp [hz])).2⟩)
+    simp only [List.length_cons]
+    omega
+
+theorem retained_length_lt (keys : List Nat) (hs : keys.Pairwise (· < ·)) (hk : ∀ k ∈ keys, k < 65536) :
+    (keys.filter (· ≠ 0xFFFF)).length < 65536 := by
+  have h1 : (keys.filter (· ≠ 0xFFFF)).Pairwise (· < ·) := hs.sublist List.filter_sublist
+  have h2 : ∀ x ∈ keys.filter (· ≠ 0xFFFF), 0 ≤ x ∧ x < 65535 := by
+    intro x hx
+    obtain ⟨hm, hne⟩ := List.mem_filter.mp hx
+    have := hk x hm
+    have hne' : x ≠ 65535 := by simpa using hne
+    omega
+  have := ascending_length 65535 _ 0 h1 h2
+  omega
+
+/-- the new index the plan assigns to a retained entry is its position among the retained entries -/
+theorem remap_lookup (e e' : Nat) (hne : e ≠ 0xFFFF) : ∀ (keys : List Nat) (k0 : Nat),
+    keys.Pairwise (· < ·) → (∀ k ∈ keys, k0 ≤ k ∧ k < 65536) →
+    (remapFrom k0 keys).lookup e = some e' →
+    ∃ i, e' = k0 + i ∧ (keys.filter (· ≠ 0xFFFF))[i]? = some e
+  | [], k0, _, _, h => by simp [remapFrom] at h
+  | x :: xs, k0, hp, hk, h => by
+    rw [remapFrom_cons] at h
+    have hx := hk x (by simp)
+    have hgt : ∀ z ∈ xs, x < z := (List.pairwise_cons.mp hp).1
+    by_cases hxf : x = 0xFFFF
+    · -- 0xFFFF can only be the last key
+      have hxs : xs = [] := by
+        cases xs with
+        | nil => rfl
+        | cons y ys =>
+          have h1 := hgt y (by simp)
+          have h2 := (hk y (by simp)).2
+          omega
+      subst hxs
+      rw [if_pos hxf] at h
+      simp only [remapFrom, List.zipIdx_nil, List.map_nil, List.lookup_cons, List.lookup_nil] at h
+      have : (e == 65535) = false := by simpa using hne
+      rw [this] at h
+      cases h
+    · rw [if_neg hxf] at h
+      simp only [List.lookup_cons] at h
+      by_cases hex : e = x
+      · subst hex
+        simp only [BEq.rfl] at h
+        cases h
+        refine ⟨0, by rw [Nat.mod_eq_of_lt (by omega)]; rfl, ?_⟩
+        have hf : List.filter (· ≠ 0xFFFF) (e :: xs) = e :: List.filter (· ≠ 0xFFFF) xs := by
+          simp [hxf]
+        rw [hf]
+        rfl
+      · have : (e == x) = false := by simpa using hex
+        rw [this] at h
+        obtain ⟨i, hi, hget⟩ := remap_lookup e e' hne xs (k0 + 1) (List.pairwise_cons.mp hp).2
+          (fun z hz => ⟨by have := hgt z hz; omega, (hk z (by simp [hz])).2⟩) h
+        refine ⟨i + 1, by omega, ?_⟩
+        have hf : List.filter (· ≠ 0xFFFF) (x :: xs) = x :: List.filter (· ≠ 0xFFFF) xs := by
+          simp [hxf]
+        rw [hf, List.getElem?_cons_succ]
+        exact hget
+
 end FontVerif.SubsetCpal
